@@ -442,6 +442,16 @@ func (d *Driver) Exec(o Op, w Want) (clause, detail string) {
 		if ErrClass(err) != w.Err {
 			return bad("error", "returned %s, contract says %s", ErrClass(err), w.Err)
 		}
+		// a second listing is opened and consumed while the first iterator is still unread: what an iterator delivers
+		// was decided when it was created, whatever the storage is asked later
+		if it2, err2 := d.St.ListKeys(ctx, "*"); err2 == nil && it2 != nil {
+			for it2.HasNext() {
+				if _, ok := it2.Next(); !ok {
+					break
+				}
+			}
+			it2.Close()
+		}
 		got := []string{}
 		for it.HasNext() {
 			k, ok := it.Next()
